@@ -475,6 +475,15 @@ impl Check for TreeProp {
         if index < fixtures * per {
             return self.enumerated(seed, index, tier);
         }
+        if index % 30 == 11 {
+            // lattice angles (see checks::so2_lattice): exact half turns between tree nodes
+            let kinds: &[PlannerKind] = if self.id == "C17" { &[PlannerKind::RRTStar] } else { &[PlannerKind::RRTStar, PlannerKind::RRTStar, PlannerKind::RRTConnect, PlannerKind::RRT] };
+            let mut scn = crate::checks::so2_lattice(self.id, seed, index, kinds);
+            let n = scn.sampling.script.len() as f64;
+            scn.params.insert("depth".into(), n);
+            scn.params.insert("obstacle_free".into(), 0.0);
+            return scn;
+        }
         if self.id == "C15" && index % 4001 == 17 {
             let mut scn = crate::checks::ultra_fine(self.id, seed, index);
             scn.params.insert("depth".into(), 2.0);
@@ -1129,7 +1138,10 @@ impl TreeProp {
             }
         }
         // 3. no dearer than through the nearest node
-        let via_nearest = nearest.iter().map(|j| t0[*j].2 + dn[*j]).fold(f64::INFINITY, f64::min);
+        // (several nodes may be EXACTLY equally near the sample; the planner extends from one of
+        // them and only that one's motion is known to be valid, so the bound that holds whatever
+        // the tie-break is the dearest of them)
+        let via_nearest = nearest.iter().map(|j| t0[*j].2 + dn[*j]).fold(f64::NEG_INFINITY, f64::max);
         if nc > via_nearest + rel(via_nearest) {
             return Err(viol("C17", sig("dearer_than_nearest"), format!("iteration {it}: new node cost {nc} exceeds the cost through the nearest node {via_nearest}")));
         }
